@@ -240,6 +240,14 @@ def eval_values(case):
     evals = 0
     for dname, D in dumpers(True):
         evals += 1
+        if len(strs) % 3 == 0:
+            # an earlier dump of the same kind that failed half-way (the second document cannot be represented) must leave
+            # nothing behind for this one
+            cl.add("after-a-failed-dump")
+            try:
+                yaml.dump_all([{"earlier": "document"}, object()], Dumper=D, **opts)
+            except yaml.YAMLError:
+                pass
         try:
             if via_stream:
                 stream = io.BytesIO() if opts.get("encoding") else io.StringIO()
@@ -376,7 +384,7 @@ def arms(tier):
     ]
 
 
-REQUIRED_CLASSES = ["opt:canonical", "opt:encoding", "opt:line_break", "indent:out-of-range", "line_break:invalid",
+REQUIRED_CLASSES = ["after-a-failed-dump", "opt:canonical", "opt:encoding", "opt:line_break", "indent:out-of-range", "line_break:invalid",
                     "data:non-ascii-or-control", "docs>=2"]
 
 
